@@ -181,8 +181,10 @@ def case_newton(ctx, maxiter, nitems=1, linear=False, continuation=False):
         Kl = ctx.array("KL", (n, n), -2, 2) + 20 * np.eye(n, dtype=int)
         lin = (Kl, ctx.array("bL", (n,), -2, 2))
     items = [StubItem(ctx, field, n, "a", multiplier=None, linear=lin)]
-    if nitems == 2:
+    if nitems >= 2:
         items.append(StubItem(ctx, field, n, "b", multiplier=-1.0))
+    if nitems == 3:
+        items.append(StubItem(ctx, field, n, "z", multiplier=0.0))  # a switched-off item must not contribute
     log = []
     raised = None
     res = None
@@ -231,11 +233,47 @@ def case_newton(ctx, maxiter, nitems=1, linear=False, continuation=False):
         ctx.equal("continuation_keeps_prescribed_values", x2[dof0], ext0)
 
 
+def case_prescribed_mixed(ctx):
+    """three-field container with a boundary on the third field: the prescribed-value vector handed to the solver
+    places each boundary's value at its own unknown, and a converged solve returns exactly these values"""
+    from felupe.tools import newtonrhapson
+
+    with ctx.concrete():
+        m = fem.Rectangle(n=2)
+        region = fem.RegionQuad(m)
+        field = fem.FieldsMixed(region, n=3)
+    for k, f in enumerate(field.fields):
+        f.values = ctx.array("u%d" % k, f.values.shape, -1, 1)
+    n = sum(f.values.size for f in field.fields)
+    vJ, vu = ctx.var("vJ", 0.5, 1.5), ctx.var("vu", -1, 1)
+    with ctx.concrete():
+        mk = np.zeros(4, dtype=bool)
+        mk[2] = True
+    bounds = {"u": fem.Boundary(field[0], mask=mk, value=vu), "J": fem.Boundary(field[2], mask=np.ones(1, dtype=bool), value=vJ)}
+    dof0, dof1 = fem.dof.partition(field, bounds)
+    ext0 = fem.dof.apply(field, bounds, dof0)
+    exp = {4: vu, 5: vu, n - 1: vJ}
+    ctx.check_concrete("prescribed_set", sorted(exp) == list(dof0))
+    ctx.equal("prescribed_value_vector", ext0, np.array([exp[k] for k in sorted(exp)], dtype=object if ctx.sym else float))
+    item = StubItem(ctx, field, n, "m")
+    log = []
+    tol = ctx.var("tol", 1e-6, 1e-2)
+    try:
+        res = newtonrhapson(items=[item], dof0=dof0, dof1=dof1, ext0=ext0, solver=solver_stub(ctx, log), maxiter=1, tol=tol, verbose=False)
+    except ValueError:
+        ctx.check_concrete("failure_commits_nothing", item.commits == 0)
+        return
+    xf = np.concatenate([np.asarray(f.values).reshape(-1) for f in res.x.fields])
+    ctx.equal("returned_field_carries_prescribed_values_on_every_field", xf[dof0], np.array([exp[k] for k in sorted(exp)], dtype=object if ctx.sym else float))
+
+
 def cases(tier):
     out = [("partitioned_solve", case_partitioned_solve, {"subset": "sample" if tier == "quick" else "all"})]
     for mi in (1, 2, 3):
         out.append(("newton", case_newton, {"maxiter": mi, "nitems": 1, "max_paths": 16}))
     out.append(("newton", case_newton, {"maxiter": 2, "nitems": 2, "max_paths": 16}))
+    out.append(("newton", case_newton, {"maxiter": 1, "nitems": 3, "max_paths": 16}))
+    out.append(("prescribed_values_mixed", case_prescribed_mixed, {"max_paths": 16}))
     out.append(("newton", case_newton, {"maxiter": 2, "linear": True, "max_paths": 16}))
     out.append(("newton", case_newton, {"maxiter": 2, "continuation": True, "max_paths": 16}))
     return out
